@@ -238,7 +238,7 @@ PROPS["C07"] = dict(
           "(every 5th case, always in thorough) group key and all public shares on one polynomial of degree <= t by Lagrange interpolation in G2 with the oracle, and t+1 honest participants reconstruct a signature valid under the group key. "
           "Non-trivial = a Byzantine participant performed a non-honest action and the delivery order was not FIFO; distinct by draw-record hash."),
     assumptions=BLS_ASSUME[:1] + ["the assumptions of the statement: round-synchronous delivery, reliable broadcast, at most t Byzantine participants", "Joint-Feldman: the disqualified set of a participant is read from its Disqualify callbacks; single-dealer protocol: from the End verdict"],
-    jobs=[J("TestC07_Agreement", 400, 2500, shards=16)],
+    jobs=[J("TestC07_Agreement", 1000, 2500, shards=16)],
 )
 
 PROPS["C08"] = dict(
@@ -247,7 +247,7 @@ PROPS["C08"] = dict(
           "or who left an honest complaint unanswered or answered it with a value not matching its vector, is disqualified by every honest participant; (g) plain Feldman VSS: every delivery order of (vector, share, one duplicate of each) x every kind of vector and share: End returns keys iff the first vector is valid (oracle) and the first share is well-formed and matches it, otherwise a DKG-failure error. "
           "Non-trivial = Byzantine non-honest action and non-FIFO delivery (simulator) / an invalid or inconsistent dealing (plain VSS); distinct by draw-record hash / by construction."),
     assumptions=BLS_ASSUME[:1] + ["the assumptions of the statement: round-synchronous delivery, reliable broadcast, at most t Byzantine participants"],
-    jobs=[J("TestC08_Fairness", 400, 2500, shards=14), J("TestC08_PlainVSS", 3, 10, shards=4)],
+    jobs=[J("TestC08_Fairness", 1000, 2500, shards=14), J("TestC08_PlainVSS", 3, 10, shards=4)],
 )
 
 PROPS["C10"] = dict(
